@@ -45,7 +45,8 @@ def run(tier, seed):
     e2["id"] = "corrupt-warns"
     e3 = first(lambda e: e["msg"]["cls"] == "EAStoryInsert" and e["status"] == "ok" and len(stories(e["pre"])) >= 1
                and len(stories(e["post"])) > len(stories(e["pre"])))
-    i0 = [i for i, k in enumerate(e3["post"]["kids"]) if k["tag"] == "story" and k["id"].startswith("S")]
+    pre_ids = {k["id"] for k in stories(e3["pre"])}
+    i0 = [i for i, k in enumerate(e3["post"]["kids"]) if k["tag"] == "story" and k["id"] in pre_ids]
     if i0:
         e3["post"]["kids"][i0[0]]["kids"][-1]["tok"] = "x:tampered"
     e3["id"] = "corrupt-content"
